@@ -127,7 +127,8 @@ def one_run(d, tag, lines, order, by_chrom, withseq, gz, variant, hashseed=None,
     gfas.sort(key=key)
     csvs.sort(key=key)
     segs, links, tags, seg_order, sbl, csv = parse_out(gfas, csvs)
-    written = [c for c in order if any(p.rsplit(".", 1)[0].endswith("-" + c) for p in gfas + csvs)]
+    written = [c for c in order if any(p.rsplit(".", 1)[0].endswith("-" + c) for p in gfas + csvs)
+               and (by_chrom or c != "complete")]      # (the merged file of a run without --by-chrom is called -complete whatever the chromosomes are called)
     # documented names: <graph name>-<chromosome>.gfa/.csv and <graph name>-complete.gfa/.csv
     # (the part before the dash is derived from the input's name in two slightly different ways for .gfa and .csv, as it always was)
     odd = [os.path.basename(p) for p in gfas + csvs if not any(os.path.basename(p).rsplit(".", 1)[0].endswith("-" + c) for c in list(order) + ["complete"])]
@@ -267,6 +268,8 @@ def sessions(ctx, cfgs, mode, opts_for=lambda k: {}):
             # ... and one in four assembly-prefixed / region-style names with ':' in them (hs1:chr1, chr6:2851-3348)
             ren = [{}, {"chrA": "chr10", "chrB": "chr1", "chrC": "chr2"}, {"chrA": "chr1", "chrB": "chr10", "chrC": "chr100"},
                    {"chrA": "hs1:chr1", "chrB": "hs1:chr10", "chrC": "chr6:2851-3348"}][k % 4]
+            if k % 11 in (6, 7):      # ... and one in six has a chromosome called "complete", the word the merged output file is named with
+                ren = dict(ren, **{"chrA" if k % 11 == 6 else "chrB": "complete"})
             nodes = [dict(n, sn=ren.get(n["sn"], n["sn"])) for n in st["nodes"]]
             if k % 4 == 3:      # allele contigs named like HLA alleles: they share everything before the first colon
                 nodes = [dict(n, sn=("HLA-A*01:" + n["sn"][3:] + ":01") if n["sr"] == 1 and n["sn"].startswith("alt") else n["sn"]) for n in nodes]
